@@ -20,6 +20,10 @@ SPEC = VERIF / "spec"
 REPO = Path(os.environ.get("VERIF_REPO", "/repo"))
 EVIDENCE = VERIF / "evidence"
 REPLAYS = VERIF / "replays"
+if os.environ.get("VERIF_OUT_SUFFIX"):
+    # runs against a patched scratch tree (tools/finalise_seeds.py) must not overwrite the evidence of /repo
+    _alt = Path("/tmp") / ("verif_out" + os.environ["VERIF_OUT_SUFFIX"])
+    EVIDENCE, REPLAYS = _alt / "evidence", _alt / "replays"
 KNOWN = VERIF / "known_findings.json"
 TLA_CP = "/opt/veriftools/tla/tla2tools.jar:/opt/veriftools/tla/CommunityModules-deps.jar"
 
@@ -246,7 +250,7 @@ class Verdicts:
                 new.setdefault(key, v)
         for key, (k, c) in sorted(seen_known.items()):
             print(f"KNOWN-FINDING: property={self.prop} {k.get('what_fails', '')} [{c} case(s) this run]")
-        REPLAYS.mkdir(exist_ok=True)
+        REPLAYS.mkdir(parents=True, exist_ok=True)
         for old in REPLAYS.glob(f"{self.prop}-*.json"):
             old.unlink()
         shown = 0
@@ -283,7 +287,7 @@ class Verdicts:
         }
         if self.notes:
             ev["notes"] = self.notes
-        EVIDENCE.mkdir(exist_ok=True)
+        EVIDENCE.mkdir(parents=True, exist_ok=True)
         (EVIDENCE / f"{self.prop}.json").write_text(json.dumps(ev, indent=1, default=str))
         return EXIT_VIOLATION if new else EXIT_OK
 
